@@ -2,7 +2,7 @@
 """tools/merge_seeded_rows.py <log> ...  -- merge the rows of newly evaluated changes (output lines of tools/seeded.py)
 into the seeded table of DESIGN.md section 10.3 without re-running the older changes."""
 import json, os, re, sys
-HERE = "/verif"
+HERE = os.path.dirname(os.path.dirname(os.path.abspath(__file__)))
 rows = {}
 for log in sys.argv[1:]:
     for line in open(log):
